@@ -39,6 +39,9 @@ pub struct KCase {
     /// order of the `KernelParams` builder calls, see `params_in_order`
     #[serde(default)]
     pub order: u8,
+    /// memory layout of the records handed to linfa, see `layout_name`
+    #[serde(default)]
+    pub layout: u8,
 }
 
 fn one() -> f64 {
@@ -118,8 +121,102 @@ pub fn params_in_order<F: Float>(method: &KM, kind: KernelType, nn: CommonNeares
     p
 }
 
-/// Build a kernel through one of the public construction paths. Returns the kernel and whether the
-/// path preserved the targets it was given (true when the path carries no targets).
+/// Memory layouts of the record matrix handed to linfa (the logical n x p matrix is always the same).
+pub const LAYOUTS: u8 = 7;
+pub fn layout_name(layout: u8) -> &'static str {
+    match layout % LAYOUTS {
+        0 => "layout_row_major",
+        1 => "layout_column_major",
+        2 => "layout_strided_view_with_gaps",
+        3 => "layout_reversed_rows",
+        4 => "layout_reversed_columns",
+        5 => "layout_transposed_feature_major",
+        _ => "layout_row_gapped_view",
+    }
+}
+/// every logical row is one contiguous unit-stride slice (what linfa-nn's KdTree documents as its
+/// precondition: it panics otherwise)
+pub fn rows_contiguous(layout: u8, n: usize, p: usize) -> bool {
+    if p <= 1 {
+        return true;
+    }
+    match layout % LAYOUTS {
+        0 | 3 | 6 => true,
+        1 | 5 => n <= 1, // column stride = n
+        _ => false,      // column stride 2 or -1
+    }
+}
+
+/// backing storage for a layout; `view_of` borrows the logical matrix from it
+fn layout_storage<F: Float>(x: &Array2<F>, layout: u8) -> Array2<F> {
+    use ndarray::ShapeBuilder;
+    let (n, p) = x.dim();
+    let junk = F::nan();
+    match layout % LAYOUTS {
+        0 => x.to_owned(),
+        1 => {
+            let mut h = Array2::from_elem((n, p).f(), junk);
+            h.assign(x);
+            h
+        }
+        2 => {
+            let mut h = Array2::from_elem((2 * n + 1, 2 * p + 1), junk);
+            for i in 0..n {
+                for j in 0..p {
+                    h[(2 * i + 1, 2 * j + 1)] = x[(i, j)];
+                }
+            }
+            h
+        }
+        3 => Array2::from_shape_fn((n, p), |(i, j)| x[(n - 1 - i, j)]),
+        4 => Array2::from_shape_fn((n, p), |(i, j)| x[(i, p - 1 - j)]),
+        5 => Array2::from_shape_fn((p, n), |(j, i)| x[(i, j)]),
+        _ => {
+            let mut h = Array2::from_elem((2 * n + 1, p), junk);
+            for i in 0..n {
+                for j in 0..p {
+                    h[(2 * i + 1, j)] = x[(i, j)];
+                }
+            }
+            h
+        }
+    }
+}
+fn view_of<F: Float>(h: &Array2<F>, layout: u8, n: usize, p: usize) -> ndarray::ArrayView2<'_, F> {
+    use ndarray::s;
+    match layout % LAYOUTS {
+        0 | 1 => h.view(),
+        2 => h.slice(s![1..2 * n + 1;2, 1..2 * p + 1;2]),
+        3 => h.slice(s![..;-1, ..]),
+        4 => h.slice(s![.., ..;-1]),
+        5 => h.t(),
+        _ => h.slice(s![1..2 * n + 1;2, ..]),
+    }
+}
+/// an *owned* array with the layout, where ndarray can own one (no gaps)
+fn owned_of<F: Float>(h: Array2<F>, layout: u8) -> Option<Array2<F>> {
+    match layout % LAYOUTS {
+        0 | 1 => Some(h),
+        3 => {
+            let mut h = h;
+            h.invert_axis(ndarray::Axis(0));
+            Some(h)
+        }
+        4 => {
+            let mut h = h;
+            h.invert_axis(ndarray::Axis(1));
+            Some(h)
+        }
+        5 => Some(h.reversed_axes()),
+        _ => None,
+    }
+}
+
+/// Build a kernel through one of the public construction paths (`path % 7`: transform(ArrayView2),
+/// transform(&Array2), transform(&ArrayView2), transform(Dataset), transform(&Dataset), Kernel::new,
+/// transform(&DatasetView)) from records stored in the given memory layout. Paths that need an owned array
+/// fall back to the corresponding view path for layouts only a view can have. Returns the kernel and whether
+/// the path preserved the targets it was given (true when the path carries no targets).
 pub fn build<F: Float>(
     x: &Array2<F>,
     method: &KM,
@@ -127,31 +224,56 @@ pub fn build<F: Float>(
     nn: CommonNearestNeighbour,
     path: u8,
     order: u8,
+    layout: u8,
 ) -> (Kernel<F>, bool) {
     let params: KernelParams<F, CommonNearestNeighbour> = params_in_order(method, kind, nn, order);
-    let n = x.nrows();
-    match path % 6 {
-        0 => (params.transform(x.view()), true),
-        1 => (params.transform(x), true),
-        2 => {
-            let v = x.view();
-            (params.transform(&v), true)
+    let (n, p) = x.dim();
+    let mut path = path % 7;
+    let ownable = owned_of(Array2::<F>::zeros((0, 0)), layout).is_some();
+    if !ownable {
+        path = match path {
+            1 => 2,
+            3 | 4 => 6,
+            other => other,
+        };
+    }
+    let targets = Array1::from_shape_fn(n, |i| 7 * i + 1);
+    let storage = layout_storage(x, layout);
+    match path {
+        1 | 3 | 4 => {
+            let owned = owned_of(storage, layout).unwrap_or_else(|| x.to_owned());
+            debug_assert!(owned == *x);
+            match path {
+                1 => (params.transform(&owned), true),
+                3 => {
+                    let ds = DatasetBase::new(owned, targets.clone());
+                    let out: DatasetBase<Kernel<F>, Array1<usize>> = params.transform(ds);
+                    let ok = out.targets == targets;
+                    (out.records, ok)
+                }
+                _ => {
+                    let ds = DatasetBase::new(owned, targets.clone());
+                    let out = params.transform(&ds);
+                    let ok = out.targets.to_owned() == targets;
+                    (out.records, ok)
+                }
+            }
         }
-        3 => {
-            let targets = Array1::from_shape_fn(n, |i| 7 * i + 1);
-            let ds = DatasetBase::new(x.clone(), targets.clone());
-            let out: DatasetBase<Kernel<F>, Array1<usize>> = params.transform(ds);
-            let ok = out.targets == targets;
-            (out.records, ok)
+        _ => {
+            let v = view_of(&storage, layout, n, p);
+            debug_assert!(v == *x);
+            match path {
+                0 => (params.transform(v), true),
+                2 => (params.transform(&v), true),
+                6 => {
+                    let ds = DatasetBase::new(v, targets.clone());
+                    let out = params.transform(&ds);
+                    let ok = out.targets.to_owned() == targets;
+                    (out.records, ok)
+                }
+                _ => (Kernel::new(v, &params), true),
+            }
         }
-        4 => {
-            let targets = Array1::from_shape_fn(n, |i| 7 * i + 1);
-            let ds = DatasetBase::new(x.clone(), targets.clone());
-            let out = params.transform(&ds);
-            let ok = out.targets.to_owned() == targets;
-            (out.records, ok)
-        }
-        _ => (Kernel::new(x.view(), &params), true),
     }
 }
 
@@ -415,6 +537,7 @@ fn check_kernel_t<F: Float>(c: &KCase, prec: Prec, obs: &mut Obs) {
     obs.class_if(max_off >= 1e7, "offset_1e8");
     obs.class_if(c.offset.windows(2).any(|w| w[0] != w[1]), "offset_differs_per_feature");
     obs.class_if(c.scale != 1.0, "spacing_scaled");
+    obs.class(layout_name(c.layout));
     obs.class(match (c.order / 6) % 3 {
         0 => "params_setters_permuted",
         1 => "params_setters_called_twice",
@@ -475,7 +598,7 @@ fn check_kernel_t<F: Float>(c: &KCase, prec: Prec, obs: &mut Obs) {
 
     // ---------------------------------------------------------------- dense
     let mut dense_m: Option<Mat> = None;
-    if let Some((kd, targets_ok)) = obs.call("build-dense", || build::<F>(&x, &method, KernelType::Dense, CommonNearestNeighbour::KdTree, c.path, c.order)) {
+    if let Some((kd, targets_ok)) = obs.call("build-dense", || build::<F>(&x, &method, KernelType::Dense, CommonNearestNeighbour::KdTree, c.path, c.order, c.layout)) {
         obs.ensure(targets_ok, "build:targets-changed", || "the dataset transform did not hand the targets through unchanged".into());
         obs.ensure(matches!(kd.inner, KernelInner::Dense(_)), "dense:wrong-variant", || "KernelType::Dense produced a sparse inner matrix".into());
         match densify(&kd, n) {
@@ -566,7 +689,7 @@ fn check_kernel_t<F: Float>(c: &KCase, prec: Prec, obs: &mut Obs) {
     let mut patterns: Vec<(&'static str, Vec<Vec<bool>>)> = vec![];
     for nn in [CommonNearestNeighbour::LinearSearch, CommonNearestNeighbour::KdTree, CommonNearestNeighbour::BallTree] {
         let name = nn_name(&nn);
-        if kd_trap && matches!(nn, CommonNearestNeighbour::KdTree) {
+        if kd_trap && matches!(nn, CommonNearestNeighbour::KdTree) && rows_contiguous(c.layout, n, x.ncols()) {
             obs.fail(
                 "kdtree:build-recursion-unbounded",
                 format!(
@@ -577,7 +700,24 @@ fn check_kernel_t<F: Float>(c: &KCase, prec: Prec, obs: &mut Obs) {
             continue;
         }
         let what = format!("build-sparse:{name}");
-        let Some((ks, targets_ok)) = obs.call(&what, || build::<F>(&x, &method, KernelType::Sparse(k), nn.clone(), c.path, c.order)) else { continue };
+        let p_cols = x.ncols();
+        let ks_res = if matches!(nn, CommonNearestNeighbour::KdTree) && !rows_contiguous(c.layout, n, p_cols) {
+            // linfa-nn documents that the kd-tree needs every row contiguous in memory and panics otherwise
+            // (kdtree.rs: "views should be contiguous"); for exactly these layouts a panic is accepted
+            match vengine::guard(|| build::<F>(&x, &method, KernelType::Sparse(k), nn.clone(), c.path, c.order, c.layout)) {
+                Ok(v) => {
+                    obs.class("kdtree_accepts_noncontiguous_rows");
+                    Some(v)
+                }
+                Err(_) => {
+                    obs.class("kdtree_documented_panic_noncontiguous_rows");
+                    None
+                }
+            }
+        } else {
+            obs.call(&what, || build::<F>(&x, &method, KernelType::Sparse(k), nn.clone(), c.path, c.order, c.layout))
+        };
+        let Some((ks, targets_ok)) = ks_res else { continue };
         obs.ensure(targets_ok, "build:targets-changed", || "the dataset transform did not hand the targets through unchanged".into());
         obs.ensure(matches!(ks.inner, KernelInner::Sparse(_)), "sparse:wrong-variant", || "KernelType::Sparse produced a dense inner matrix".into());
         let (m, pat) = match densify(&ks, n) {
